@@ -125,6 +125,95 @@ def rutf8(rng, nbytes):
     return out
 
 
+# every place a text is carried: (attribute type, fixed octets before the text)
+STRING_SITES = [(8, 0), (21, 0), (22, 0), (23, 0), (1, 4), (12, 3)]
+UTF8_DEFECTS = [('cut2', b'\xc3'), ('cut3a', b'\xe2'), ('cut3b', b'\xe2\x82'), ('cut4a', b'\xf0'), ('cut4b', b'\xf0\x9f'),
+                ('cut4c', b'\xf0\x9f\x98'), ('ff', b'\xff'), ('cont', b'\x80'), ('overlong2', b'\xc0\x80'), ('overlong3', b'\xe0\x9f\x80'),
+                ('surrogate', b'\xed\xa0\x80'), ('above', b'\xf4\x90\x80\x80'), ('f5', b'\xf5')]
+UTF8_ENDINGS = [('end1', b'z'), ('end2', b'\xc3\xa9'), ('end3', b'\xe2\x82\xac'), ('end4', b'\xf0\x9f\x98\x80')]
+
+
+def string_prefix(rng, t):
+    if t == 1:
+        return be(extreme(rng, 16), 2) + be(rng.randrange(9), 2)
+    if t == 12:
+        return rbytes(rng, 3)
+    return b''
+
+
+def utf8_grid(rng):
+    """-> [(tag, attribute type, payload, valid?)]: every text site x text length {just the sequence, a few blocks, the most one AVP
+    holds} x every class of UTF-8 defect (or a complete 1..4-octet character) x position {first, middle, last}"""
+    out, seen = [], set()
+    for (t, fixed) in STRING_SITES:
+        for cls_, n in (('min', 0), ('mid', rng.randrange(17, 60)), ('max', 1017 - fixed)):
+            for (dn, d), ok in [(x, False) for x in UTF8_DEFECTS] + [(x, True) for x in UTF8_ENDINGS]:
+                room = max(n, len(d)) - len(d)
+                for pos in ('first', 'middle', 'last'):
+                    k = {'first': 0, 'middle': room // 2, 'last': room}[pos]
+                    key = (t, cls_, dn, k)
+                    if key in seen:
+                        continue
+                    seen.add(key)
+                    text = rutf8_plain(rng, k) + d + rutf8_plain(rng, room - k)
+                    out.append(('utf8_%s_%s_%s' % (cls_, dn, pos), t, string_prefix(rng, t) + text, ok))
+    return out
+
+
+def rutf8_plain(rng, nbytes):
+    """valid UTF-8 of exactly nbytes octets, complete characters only, no white-space decoration"""
+    out = b''
+    while len(out) < nbytes:
+        e = chr(rng.choice([0x41, 0x7a, 0xe9, 0x20ac, 0x1f600, 0x30, 0x7f, 0x80, 0x7ff, 0x800, 0xffff, 0x10000])).encode('utf-8')
+        if len(e) <= nbytes - len(out):
+            out += e
+    return out
+
+
+def rstruct(rng, n):
+    """n octets of self-similar length-prefixed content (what an opaque field that carries another protocol's packet looks
+    like: LCP code/identifier/length, option type/length, a 16-bit length in front): the same layout, code octet and
+    length convention repeat at every nesting level, so that a reader which strips or interprets one level meets another"""
+    layout = rng.choice(['cil', 'cil', 'tl', 'l16', 't16l16'])
+    code = rng.choice([0, 1, 1, 2, 3, 4, 255, rng.getrandbits(8)])
+    incl = rng.random() < 0.6          # the length counts the header too
+    hdr = {'cil': 4, 'tl': 2, 'l16': 2, 't16l16': 4}[layout]
+    depth = rng.choice([1, 2, 2, 3, 4])
+
+    def level(m, d):
+        if m < hdr + 1 or d == 0:
+            return rbytes(rng, m)
+        body = level(m - hdr, d - 1)
+        ln = m if incl else m - hdr
+        if layout == 'cil':
+            return bytes([code, rng.getrandbits(8)]) + be(ln & 0xffff, 2) + body
+        if layout == 'tl':
+            return bytes([code, ln & 0xff]) + body
+        if layout == 'l16':
+            return be(ln & 0xffff, 2) + body
+        return be(code, 2) + be(ln & 0xffff, 2) + body
+    tail = rng.choice([0, 0, 0, rng.randrange(0, 4)]) if n > hdr + 4 else 0
+    return level(n - tail, depth) + rbytes(rng, tail)
+
+
+def ropaque(rng, n):
+    """the content of an opaque octet field: mostly random, sometimes nested length-prefixed, sometimes with filler runs"""
+    c = rng.random()
+    if c < 0.15 and n >= 5:
+        return rstruct(rng, n)
+    if c < 0.22 and n >= 2:
+        return rpadded(rng, n)
+    return rbytes(rng, n)
+
+
+def rpadded(rng, n):
+    """n octets that begin or end with a run of one filler octet (what trimming would remove)"""
+    f = bytes([rng.choice([0, 0, 0x20, 0xff])])
+    k = rng.randrange(1, max(2, min(n, 6)))
+    core = rbytes(rng, max(0, n - k))
+    return (core + f * k if rng.random() < 0.6 else f * k + core)[:n]
+
+
 def rsize(rng, lo=1, hi=1017):
     if DICT and rng.random() < 0.2:
         v = rng.choice(DICT) + rng.choice([0, 0, 1, -1, -2, -6])
@@ -173,7 +262,7 @@ def rand_avp(rng, kind=None, maxpay=1017, allow_hidden=True, small=False):
     if shape == 'u64':
         return 'TieBreaker(%d)' % extreme(rng, 64)
     if shape == 'bytes':
-        return '%s(%s)' % (kind, rbytes(rng, sz(1, maxpay)).hex())
+        return '%s(%s)' % (kind, ropaque(rng, sz(1, maxpay)).hex())
     if shape == 'str':
         return '%s(%s)' % (kind, rutf8(rng, sz(1, maxpay)).hex())
     if shape == 'fix16':
@@ -338,7 +427,7 @@ def valid_payload(rng, t, n=None):
     if shape == 'u64':
         return rbytes(rng, 8)
     if shape == 'bytes':
-        return rbytes(rng, sz)
+        return ropaque(rng, sz)
     if shape == 'str':
         return rutf8(rng, sz)
     if shape == 'fix16':
